@@ -726,6 +726,55 @@ def c08_7(ck, prog):
                             f, ', '.join(sorted(src)) or '(nothing)'))
     if n < 8:
         raise AnalysisBroken('merge_included: only %d merged options recognised' % n)
+    # ... and no option an element handler can set is forgotten by the merge
+    def owner_field(lhs):
+        x = lhs
+        while x is not None and x.get('k') == 'member' and x.get('rec') != 'BusConfigParser':
+            x = x.get('base')
+        if x is not None and x.get('k') == 'member' and x.get('rec') == 'BusConfigParser':
+            return x['field']
+        inner = strip_addr(lhs) if lhs is not None else None
+        return owner_field(inner) if inner is not None else None
+    HANDLERS = ('start_busconfig_child', 'bus_config_parser_content', 'servicehelper_path', 'include_dir')
+    parsed = {}
+    for hn in HANDLERS:
+        try:
+            hf = prog.fn(hn, CP)
+        except AnalysisBroken:
+            continue
+        for b, i, ev in hf.events():
+            for lhs, how, rhs in written_lvalues(ev):
+                fld = owner_field(lhs)
+                if fld:
+                    parsed.setdefault(fld, hn)
+    merged = set()
+    for b, i, ev in mi.events():
+        for lhs, how, rhs in written_lvalues(ev):
+            x = lhs
+            while x is not None and x.get('k') == 'member' and not (is_ref(x.get('base')) and x['base'].get('id') == p0):
+                x = x.get('base')
+            inner = strip_addr(lhs) if x is None else None
+            if x is None and inner is not None:
+                x = inner
+                while x is not None and x.get('k') == 'member' and not (is_ref(x.get('base')) and x['base'].get('id') == p0):
+                    x = x.get('base')
+            if x is not None and x.get('k') == 'member':
+                merged.add(x['field'])
+        if ev['ev'] == 'call':
+            for a in ev['e']['args']:
+                merged |= fields_of(a, p0)
+    NOT_MERGED_REVIEWED = {'syslog': 'never merged in the reference tree: <syslog/> only counts in the top-level file',
+                           'basedir': 'a property of the file being parsed, not an option',
+                           'stack': 'parser state', 'limits': 'handed back by include_file'}
+    for fld, hn in sorted(parsed.items()):
+        key = 'merge_included:covers-%s' % fld
+        if fld in merged or fld in NOT_MERGED_REVIEWED:
+            r.ok(key)
+        else:
+            r.violation(key, mi.name, CP, mi.line,
+                        'parser->%s can be set by %s while an included file is parsed, but merge_included does not hand '
+                        'it on: the option is silently ignored when it is written in an included file (for <auth> that '
+                        'leaves the mechanism list empty, which means every mechanism is allowed)' % (fld, hn))
     # 3. getter, context, connection
     g = prog.fn('bus_config_parser_get_allow_anonymous', CP)
     rets = [ev.get('e') for b, i, ev in g.events() if ev['ev'] == 'return']
